@@ -571,6 +571,33 @@ func (c05) ID() string           { return "C05" }
 func (c05) Runs(tier string) int { return tierLen(tier, 6000, 40000) }
 
 func (c05) Gen(r *kern.Rng, tier string, idx int) *Trace {
+	if idx%193 == 17 {
+		// payload-length sweep: the end of the final block meets every bit offset and
+		// every phase of the decoder's loops, with enough bytes following the stream
+		// for the fast loop to be the one that sees the end
+		pkg := r.PickS("flate", "flate", "gzip", "zlib")
+		w := &scen.WScen{Pkg: pkg, Ctor: "new", Level: r.Pick(-2, 1, 5, 9, 0), Data: scen.DataSpec{Kind: r.PickS("text", "alpha", "rand", "logcopies"), Seed: r.Uint64(), P1: r.Pick(3, 16), Len: r.Pick(1, 50, 300, 2000, 9000)}}
+		if pkg != "flate" {
+			w.Ctor = "level"
+		}
+		w.Ops = []scen.WOp{{K: "w", N: 1 << 30}, {K: "c"}}
+		sc := &scen.RScen{Pkg: pkg, Src: scen.SrcSpec{Kind: "bufio", Buf: r.Pick(16, 64, 4096, 4096, 65536)}}
+		// the stdlib ends every stream with an empty stored block; fastgo's own Writers
+		// set the final bit on a Huffman-coded block, a different end for the decoder
+		sc.In.Parts = []scen.StreamSpec{{Enc: r.PickS("std", "fast", "fast"), W: w}}
+		if sc.In.Parts[0].Enc == "fast" {
+			w.Level = r.Pick(-2, -2, 1, 2)
+		}
+		sfx := scen.DataSpec{Kind: "rand", Seed: r.Uint64(), Len: r.Pick(1, 8, 24, 64, 64, 300)}
+		sc.In.Suffix = &sfx
+		if pkg == "gzip" {
+			sc.NoMulti, sc.Members = true, 1
+		}
+		if r.Pct(30) {
+			sc.Ctor = "reset"
+		}
+		return &Trace{Property: "C05", Family: "R-suffix(payload-length sweep)", R: sc, Sweep: true, Stride: tierLen(tier, 300, 900)}
+	}
 	pkg := []string{"flate", "flate", "gzip", "zlib"}[r.Intn(4)]
 	sc := &scen.RScen{Pkg: pkg}
 	sc.In.Parts = []scen.StreamSpec{genStream(r, pkg, 80000, 25)}
@@ -611,6 +638,34 @@ func (c05) Gen(r *kern.Rng, tier string, idx int) *Trace {
 }
 
 func (c05) Exec(tr *Trace, keep bool) *Outcome {
+	if tr.Sweep {
+		o := &Outcome{LevelIndep: true}
+		o.stat("payload_length_sweeps", 1)
+		h := uint64(0)
+		for d := 0; d < tr.Stride; d++ {
+			c := tr.Clone()
+			c.Sweep, c.Stride = false, 0
+			c.R.In.Parts[0].W.Data.Len = tr.R.In.Parts[0].W.Data.Len + d
+			so := c05{}.Exec(c, keep)
+			o.Evals += so.Evals
+			o.Events += so.Events
+			o.LogHash = o.LogHash*0x100000001b3 ^ so.LogHash
+			if len(o.Sigs) < 16 {
+				o.Sigs = append(o.Sigs, so.Sigs...)
+			}
+			h = h*0x100000001b3 ^ so.Digest
+			for k, v := range so.Stats {
+				o.stat(k, v)
+			}
+			o.Violations = append(o.Violations, so.Violations...)
+			if len(o.Violations) > 3 {
+				break
+			}
+		}
+		o.Digest = h
+		o.Sample = rSample(tr.R) + fmt.Sprintf(" (payload lengths %d..%d)", tr.R.In.Parts[0].W.Data.Len, tr.R.In.Parts[0].W.Data.Len+tr.Stride-1)
+		return o
+	}
 	o := &Outcome{}
 	sc := tr.R
 	rec, log := runR(sc, true, keep)
@@ -955,6 +1010,7 @@ func (c15) Exec(tr *Trace, keep bool) *Outcome {
 		c := tr.Clone()
 		c.Sweep = false
 		c.R.Del.HasFail, c.R.Del.FailAfter, c.R.Del.ErrWithData = true, k1-1, i%2 == 1
+		c.R.Del.ErrWrapsEOF = i%3 == 2 // "forall error values": one that wraps io.EOF without being it
 		rec, log := runR(c.R, true, keep)
 		o.fold(log, rec.Src != nil && rec.Src.ErrGiven > 0)
 		h = h*0x100000001b3 ^ rDigest(rec)
